@@ -16,7 +16,8 @@
 EXTENDS Integers, Sequences, FiniteSets, TLC, Json, Randomization
 
 CONSTANTS Mode,      \* "exh": every item list with NFree free items | "rand": RandomSubset(NRand, ..) of them
-                     \* "para": NRand paragraph-shaped lists of NFree words | "none" (trace specs)
+                     \* "para": NRand paragraph-shaped lists of NFree words | "corpus": the stored scenarios of
+                     \* kp_corpus.ndjson | "none" (trace specs)
           NFree,     \* number of free items (the list is free \o <<Glue(0,Inf,0), Penalty(-Inf)>>)
           NRand,
           MinW, MaxW,  \* line widths MinW..MaxW
@@ -126,18 +127,27 @@ FitSet(n, d) == {c \in 0..3 :
                    \/ c = 2 /\ ((QLt(1, 1, 2 * n, d) /\ QLe(n, d, 1, 1)) \/ NearQ(2 * n, d, 1, 1) \/ NearQ(n, d, 1, 1))
                    \/ c = 3 /\ (QLt(1, 1, n, d) \/ NearQ(n, d, 1, 1))}
 
-\* badness 100 |r|^3 in tenths, as an integer interval  lo <= 1000 |n|^3 / d^3 <= hi
+\* Demerits are kept in units of 1/10000 as two-limb numbers <<H, L>> = H * 10000 + L with 0 <= L < 10000 (TLC integers
+\* have 32 bits; an optimum lost by less than DemeritsFitness = 100 must still be outside the rounding interval).
+DN(H, L) == <<H + L \div 10000, L % 10000>>
+DAdd(p, q) == DN(p[1] + q[1], p[2] + q[2])
+DLe(p, q) == p[1] < q[1] \/ (p[1] = q[1] /\ p[2] <= q[2])
+DMinOf(S) == CHOOSE v \in S : \A w \in S : DLe(v, w)
+DSq(B) == LET b1 == B \div 100  b0 == B % 100 IN DN(b1 * b1, 200 * b1 * b0 + b0 * b0)      \* B^2 for 0 <= B < 2 * 10^5
+\* badness 100 |r|^3 in hundredths, as an integer interval  lo <= 10000 |n|^3 / d^3 <= hi  (in tenths times 10 for |n| > 51)
 CeilDiv(a, b) == (a + b - 1) \div b
-BadLo(n, d) == LET m == Abs(n) IN IF 10 * m <= d THEN 0 ELSE (1000 * m * m * m) \div (d * d * d)
-BadHi(n, d) == LET m == Abs(n) IN IF 10 * m <= d THEN 1 ELSE CeilDiv(1000 * m * m * m, d * d * d)
-\* demerits of one line in hundredths (everything in tenths, squared), without the flag / fitness terms:
+BadLo10(n, d) == LET m == Abs(n) IN IF 10 * m <= d THEN 0 ELSE (1000 * m * m * m) \div (d * d * d)
+BadHi10(n, d) == LET m == Abs(n) IN IF 10 * m <= d THEN 1 ELSE CeilDiv(1000 * m * m * m, d * d * d)
+BadLo(n, d) == LET m == Abs(n) IN IF 25 * m <= d THEN 0 ELSE IF m <= 51 THEN (10000 * m * m * m) \div (d * d * d) ELSE 10 * BadLo10(n, d)
+BadHi(n, d) == LET m == Abs(n) IN IF 25 * m <= d THEN 1 ELSE IF m <= 51 THEN CeilDiv(10000 * m * m * m, d * d * d) ELSE 10 * BadHi10(n, d)
+\* demerits of one line, without the flag / fitness terms (bad: badness in hundredths):
 \*   (DLine + badness + p)^2  if p >= 0 ; (DLine + badness)^2 - p^2  if -Inf < p < 0 ; (DLine + badness)^2 otherwise
 LineDem(it, b, bad) ==
-  LET base == 10 * DLine + bad
+  LET base == 100 * DLine + bad
       p == IF IsPen(it[b]) THEN it[b][5] ELSE 0
-  IN IF IsPen(it[b]) /\ p >= 0 THEN (base + 10 * p) * (base + 10 * p)
-     ELSE IF IsPen(it[b]) /\ p > 0 - Inf THEN base * base - 100 * p * p
-     ELSE base * base
+  IN IF IsPen(it[b]) /\ p >= 0 /\ p < Inf THEN DSq(base + 100 * p)
+     ELSE IF IsPen(it[b]) /\ p < 0 /\ p > 0 - Inf THEN LET q == DSq(base) IN <<q[1] - p * p, q[2]>>
+     ELSE DSq(base)
 
 \* everything about the candidate line that ends at b and has natural sums L, Y, Z (L includes b's penalty width)
 LineRecS(it, l, b, L, Y, Z) ==
@@ -148,8 +158,8 @@ LineRecS(it, l, b, L, Y, Z) ==
   IN [L |-> L, Y |-> Y, Z |-> Z, def |-> def, n |-> n, d |-> d, cls |-> cls, clsx |-> LineClsX(l, L, Y, Z), shr |-> ShrCls(l, L, Y, Z),
       st |-> StretchNeed(l, L, Y, Z),
       fit |-> IF dem THEN FitSet(n, d) ELSE {},
-      dlo |-> IF dem THEN LineDem(it, b, BadLo(n, d)) ELSE 0,
-      dhi |-> IF dem THEN LineDem(it, b, BadHi(n, d)) ELSE 0,
+      dlo |-> IF dem THEN LineDem(it, b, BadLo(n, d)) ELSE <<0, 0>>,
+      dhi |-> IF dem THEN LineDem(it, b, BadHi(n, d)) ELSE <<0, 0>>,
       flag |-> it[b][6] = 1]
 \* the candidate line a -> b (a = 0: start of the paragraph)
 LineRec(it, l, a, b) == LineRecS(it, l, b, NatW(it, a, b), NatY(it, a, b), NatZ(it, a, b))
@@ -158,8 +168,8 @@ LineTable(it, l) == [p \in Pairs(it) |-> LineRec(it, l, p[1], p[2])]
 
 \* ---- a breaking, judged ----------------------------------------------------------------------------
 Worst(S) == IF "I" \in S THEN "I" ELSE IF "B" \in S THEN "B" ELSE "F"
-FitLo(F1, F2) == IF \E c1 \in F1, c2 \in F2 : Abs(c1 - c2) <= 1 THEN 0 ELSE 100 * DFit
-FitHi(F1, F2) == IF \E c1 \in F1, c2 \in F2 : Abs(c1 - c2) > 1 THEN 100 * DFit ELSE 0
+FitLo(F1, F2) == IF \E c1 \in F1, c2 \in F2 : Abs(c1 - c2) <= 1 THEN <<0, 0>> ELSE <<DFit, 0>>
+FitHi(F1, F2) == IF \E c1 \in F1, c2 \in F2 : Abs(c1 - c2) > 1 THEN <<DFit, 0>> ELSE <<0, 0>>
 \* s: the breaking as an increasing sequence of positions, recs[j]: the record of its j-th line
 JudgeRecs(s, recs) ==
   LET k == Len(s)
@@ -170,15 +180,15 @@ JudgeRecs(s, recs) ==
       fitOf(j) == IF j = 0 THEN {1} ELSE ln(j).fit            \* the paragraph starts in class 1
       flagOf(j) == IF j = 0 THEN FALSE ELSE ln(j).flag
       RECURSIVE DSum(_, _)
-      DSum(j, hi) == IF j > k THEN 0
-                     ELSE (IF hi THEN ln(j).dhi ELSE ln(j).dlo)
-                          + (IF flagOf(j-1) /\ flagOf(j) THEN 100 * DFlag ELSE 0)
-                          + (IF hi THEN FitHi(fitOf(j-1), fitOf(j)) ELSE FitLo(fitOf(j-1), fitOf(j)))
-                          + DSum(j + 1, hi)
+      DSum(j, hi) == IF j > k THEN <<0, 0>>
+                     ELSE DAdd(DAdd(IF hi THEN ln(j).dhi ELSE ln(j).dlo,
+                                    IF flagOf(j-1) /\ flagOf(j) THEN <<DFlag, 0>> ELSE <<0, 0>>),
+                               DAdd(IF hi THEN FitHi(fitOf(j-1), fitOf(j)) ELSE FitLo(fitOf(j-1), fitOf(j)),
+                                    DSum(j + 1, hi)))
       RECURSIVE MaxSt(_)
       MaxSt(j) == IF j > k THEN <<0, 1>> ELSE QMaxInf(ln(j).st, MaxSt(j + 1))
   IN [b |-> [j \in 1..k |-> s[j] - 1], cls |-> cls, clsx |-> clsx, shr |-> shr,
-      dlo |-> IF cls = "I" THEN 0 ELSE DSum(1, FALSE), dhi |-> IF cls = "I" THEN 0 ELSE DSum(1, TRUE),
+      dlo |-> IF cls = "I" THEN <<0, 0>> ELSE DSum(1, FALSE), dhi |-> IF cls = "I" THEN <<0, 0>> ELSE DSum(1, TRUE),
       mx |-> MaxSt(1)]
 \* T: line table
 Judge(T, s) == JudgeRecs(s, [j \in 1..Len(s) |-> T[<<IF j = 1 THEN 0 ELSE s[j-1], s[j]>>]])
@@ -252,13 +262,29 @@ Verdict(it, l, T) ==
       ln |-> {[a |-> p[1] - 1, b |-> p[2] - 1, L |-> T[p].L, def |-> T[p].def, n |-> T[p].n, d |-> T[p].d, cls |-> T[p].cls, clsx |-> T[p].clsx,
                e |-> After(it, p[1]) > p[2]] : p \in DOMAIN T},      \* e: nothing between the two breakpoints
       brk |-> J,
-      sf |-> SF # {}, mind |-> IF SF = {} THEN -1 ELSE MinOf({j.dhi : j \in SF}),
-      sfx |-> SFX # {}, mindx |-> IF SFX = {} THEN -1 ELSE MinOf({j.dhi : j \in SFX}),      \* exact reading (identity embedding)
+      sf |-> SF # {}, mind |-> IF SF = {} THEN <<-1, 0>> ELSE DMinOf({j.dhi : j \in SF}),
+      sfx |-> SFX # {}, mindx |-> IF SFX = {} THEN <<-1, 0>> ELSE DMinOf({j.dhi : j \in SFX}),      \* exact reading (identity embedding)
       feat |-> Features(it, T, l),
       complete |-> complete,
       allinf |-> complete,
       sshr |-> SS # {}, noshr |-> complete /\ \A j \in J : j.shr = "I", tstar |-> tstar]
 
+\* Scenario feature "the optimum runs through a dearer fitness class" (steering / evidence only): EVERY breaking that may
+\* be the optimum (surely feasible, demerits_lo <= the least demerits_hi) reaches some inner breakpoint b as its i-th
+\* break while another breaking without a surely infeasible line reaches b as its i-th break too, ends there in a
+\* different fitness class and is strictly cheaper up to b. An algorithm that keeps, per breakpoint and line number,
+\* only the cheapest fitness class loses such an optimum; the published one keeps every class within DemeritsFitness
+\* of the cheapest.
+Prefix(p, i) == JudgeRecs([j \in 1..i |-> p[j].b], [j \in 1..i |-> p[j].r])
+DLt(p, q) == ~DLe(q, p)
+OptViaDearer(P) ==
+  LET F == {p \in P : JudgePath(p).cls = "F"} IN
+  IF F = {} THEN FALSE
+  ELSE LET m == DMinOf({JudgePath(p).dhi : p \in F})
+           Opt == {p \in F : DLe(JudgePath(p).dlo, m)}
+       IN \A p \in Opt : \E i \in 1..(Len(p) - 1) :
+             \E q \in P : /\ Len(q) > i /\ q[i].b = p[i].b /\ q[i].r.fit \cap p[i].r.fit = {}
+                           /\ Prefix(q, i).cls # "I" /\ DLt(Prefix(q, i).dhi, Prefix(p, i).dlo)
 \* Verdict for long lists (Mode "para"): only the breakings without a surely infeasible line are judged, each with the
 \* data of its own lines (ls); no relaxation clause (complete = FALSE).
 VerdictP(it, l) ==
@@ -271,9 +297,10 @@ VerdictP(it, l) ==
       legal |-> {i - 1 : i \in Legal(it)}, forced |-> {i - 1 : i \in Forced(it)},
       ln |-> {},
       brk |-> {[b |-> x.j.b, cls |-> x.j.cls, clsx |-> x.j.clsx, shr |-> x.j.shr, dlo |-> x.j.dlo, dhi |-> x.j.dhi, mx |-> x.j.mx, ls |-> x.ls] : x \in J},
-      sf |-> SF # {}, mind |-> IF SF = {} THEN -1 ELSE MinOf({x.j.dhi : x \in SF}),
-      sfx |-> SFX # {}, mindx |-> IF SFX = {} THEN -1 ELSE MinOf({x.j.dhi : x \in SFX}),
-      feat |-> (IF FeatEmptyGlue(it) THEN {"emptyglue"} ELSE {}) \cup (IF FeatEmptyGlueDeact(it, l) THEN {"emptydeact"} ELSE {}),
+      sf |-> SF # {}, mind |-> IF SF = {} THEN <<-1, 0>> ELSE DMinOf({x.j.dhi : x \in SF}),
+      sfx |-> SFX # {}, mindx |-> IF SFX = {} THEN <<-1, 0>> ELSE DMinOf({x.j.dhi : x \in SFX}),
+      feat |-> (IF FeatEmptyGlue(it) THEN {"emptyglue"} ELSE {}) \cup (IF FeatEmptyGlueDeact(it, l) THEN {"emptydeact"} ELSE {})
+               \cup (IF Mode = "corpus" /\ OptViaDearer(P) THEN {"viadearer"} ELSE {}),
       complete |-> FALSE, allinf |-> FALSE, sshr |-> FALSE, noshr |-> FALSE, tstar |-> <<1, 0>>]
 
 \* ---- quantised observations (trace validation, Layout): logged lengths are within h/2 of the real ones -----------
@@ -326,14 +353,17 @@ ParaLists == {FlatSeq(f) : f \in RandomSubset(NRand, [1..NFree -> ParaUnits])}
 Lists == IF Mode = "exh" THEN Free ELSE IF Mode = "rand" THEN RandomSubset(NRand, Free)
          ELSE IF Mode = "para" THEN ParaLists ELSE {}
 
-Init == /\ items \in {f \o TailItems : f \in {g \in Lists : Structural(g)}}
-        /\ width \in MinW..MaxW
+\* "corpus": stored scenarios (items with their tail, width), one JSON record per line of kp_corpus.ndjson
+Corpus == ndJsonDeserialize("kp_corpus.ndjson")
+Init == /\ IF Mode = "corpus" THEN \E i \in 1..Len(Corpus) : items = Corpus[i].items /\ width = Corpus[i].width
+           ELSE /\ items \in {f \o TailItems : f \in {g \in Lists : Structural(g)}}
+                /\ width \in MinW..MaxW
         /\ ph = 0 /\ lt = <<>>
-Build == ph = 0 /\ ph' = 1 /\ lt' = (IF Mode = "para" THEN <<>> ELSE LineTable(items, width)) /\ UNCHANGED <<items, width>>
+Build == ph = 0 /\ ph' = 1 /\ lt' = (IF Mode \in {"para", "corpus"} THEN <<>> ELSE LineTable(items, width)) /\ UNCHANGED <<items, width>>
 Next == Build
 Spec == Init /\ [][Next]_vars
 
-EmitInv == ph = 1 => PrintT("@@" \o ToJson(IF Mode = "para" THEN VerdictP(items, width) ELSE Verdict(items, width, lt)))
+EmitInv == ph = 1 => PrintT("@@" \o ToJson(IF Mode \in {"para", "corpus"} THEN VerdictP(items, width) ELSE Verdict(items, width, lt)))
 
 \* ---- model-level sanity of the specification itself (MC) ------------------------------------------------
 J0 == AllJudged(items, lt)
@@ -345,7 +375,7 @@ BruteLegal == ph = 1 => \A j \in J0 : LET k == Len(j.b) IN
 \* the three feasibility classes partition, intervals are intervals, surely feasible lines have a defined ratio in [-1, Tol]
 LinesSane == ph = 1 => \A p \in DOMAIN lt : LET r == lt[p] IN
                  /\ r.cls \in {"F", "B", "I"} /\ r.shr \in {"F", "B", "I"}
-                 /\ r.dlo <= r.dhi
+                 /\ DLe(r.dlo, r.dhi)
                  /\ (r.cls = "F" => /\ r.def /\ QLe(-1, 1, r.n, r.d) /\ QLe(r.n, r.d, Tol, 1)
                                     /\ r.fit # {} /\ r.shr = "F")
                  /\ (r.cls = "I" => ~r.def \/ QLt(r.n, r.d, -1, 1) \/ QLt(Tol, 1, r.n, r.d))
@@ -353,12 +383,12 @@ LinesSane == ph = 1 => \A p \in DOMAIN lt : LET r == lt[p] IN
                  /\ (r.cls = "F" => r.clsx = "F") /\ (r.cls = "I" <=> r.clsx = "I")       \* the exact reading only decides borderline lines
                  /\ (r.clsx = "F" => r.def /\ QLe(-1, 1, r.n, r.d) /\ QLe(r.n, r.d, Tol, 1))
                  /\ (r.cls # "I" /\ r.def => LET m == Abs(r.n) IN
-                        10 * m > r.d => /\ BadLo(r.n, r.d) * r.d * r.d * r.d <= 1000 * m * m * m
-                                        /\ 1000 * m * m * m <= BadHi(r.n, r.d) * r.d * r.d * r.d
-                                        /\ BadHi(r.n, r.d) - BadLo(r.n, r.d) <= 1)
+                        (25 * m > r.d /\ m <= 51) => /\ BadLo(r.n, r.d) * r.d * r.d * r.d <= 10000 * m * m * m
+                                                      /\ 10000 * m * m * m <= BadHi(r.n, r.d) * r.d * r.d * r.d
+                                                      /\ BadHi(r.n, r.d) - BadLo(r.n, r.d) <= 1)
 \* the brute-force optimum is a legal, surely feasible breaking; needing no more stretch than Tol when one exists
 OptSane == ph = 1 => LET SF == {j \in J0 : j.cls = "F"} v == Verdict(items, width, lt) IN
-             /\ \A j \in J0 : j.dlo <= j.dhi
+             /\ \A j \in J0 : DLe(j.dlo, j.dhi)
              /\ (SF # {} => /\ v.sf /\ \E j \in SF : j.dhi = v.mind /\ j.shr = "F" /\ QLeInf(j.mx, <<Tol, 1>>)
                             /\ v.sshr /\ QLeInf(v.tstar, <<Tol, 1>>))
              /\ (v.allinf => ~v.sf /\ \A j \in J0 : j.cls = "I") /\ (v.noshr => ~v.sshr /\ v.allinf)
